@@ -4,6 +4,7 @@ CONSTANTS
   MaxR = 1
   NN0 = 3
   T100 = 670
+  Ex0 = {}
   Facts = {"A", "B"}
   MaxOps = 2
   StartAll = TRUE
